@@ -788,6 +788,17 @@ pub fn glide_step(r: &mut Rng, n: usize, out: &mut Vec<String>) {
                 out.push(format!("proc {}", b(target)));
             }
         }
+        // times above 10 s (must behave like 10 s), then back
+        if r.chance(1, 3) {
+            let big = r.pick(&[10.06f32, 12.0, 60.0, 1.0e9, f32::MAX, f32::INFINITY]);
+            out.push(format!("time {}", b(big)));
+            for _ in 0..r.range(1, 6) {
+                out.push(format!("proc {}", b(target + 1.0)));
+            }
+            out.push(format!("time {}", b(r.pick(&[0.0f32, 0.5, 9.99, 10.0, 20.0]))));
+            out.push(format!("proc {}", b(target)));
+            left -= 8;
+        }
     }
 }
 
@@ -901,6 +912,27 @@ pub fn midi_notes(r: &mut Rng, n: usize, out: &mut Vec<String>) {
         out.push(format!("midi new {}", ch));
         let mut held: Vec<u64> = Vec::new();
         let few = r.chance(2, 3);
+        if r.chance(1, 8) {
+            // more than 32 keys down, polled in between, in either retrigger mode
+            out.push(format!("retrig {}", r.below(2)));
+            let base = r.below(60);
+            for k in 0..r.range(30, 44) {
+                for by in [0x90 + ch, base + k, r.range(1, 127)] {
+                    out.push(format!("byte {}", by));
+                }
+                if r.chance(1, 2) {
+                    out.push("rising".to_string());
+                }
+                if r.chance(1, 6) {
+                    out.push("falling".to_string());
+                }
+                if r.chance(1, 10) {
+                    out.push(format!("retrig {}", r.below(2)));
+                }
+                held.push(base + k);
+                left -= 4;
+            }
+        }
         for _ in 0..r.range(10, 150) {
             let c = r.below(100);
             let mut bytes: Vec<u64> = Vec::new();
